@@ -9,8 +9,9 @@ type Cand struct {
 }
 
 type Bind struct {
-	Seq string `json:"seq"` // inputrc notation
-	Cmd string `json:"cmd"`
+	Seq   string `json:"seq"` // inputrc notation
+	Cmd   string `json:"cmd"`
+	Macro bool   `json:"macro,omitempty"` // Cmd is the text of a macro
 }
 
 type Inject struct { // state-injection probe, bound to Seq
